@@ -342,22 +342,16 @@ def build_acc(er):
 
 
 def acc_label(er):
+    """Element class named in the mech (the full recipe is in the message)."""
     k = er[0]
-    if k in ("fr", "zip", "splitfc"):
-        inner = er[1] if k == "fr" else None
-        if k == "fr":
-            # request() of the adapter yields what the inner accumulator yields
-            return acc_label(inner)
-        return {"zip": "Zip", "splitfc": "Split"}[k] + "(%s)" % ",".join(
-            acc_label(e) for e in er[1])
-    if k == "vec":
-        return "Vectorize(%s)" % acc_label(er[1])
-    if k == "sib":
-        return "SplitIntoBins(%s)" % acc_label(er[1])
+    if k == "fr":
+        # request() of the adapter yields what the inner accumulator yields
+        return acc_label(er[1])
     if k == "mean":
         return "Mean" if not er[1] else "Mean(%s)" % er[1]
     return {"count": "Count", "sum": "Sum", "dsum": "DSum", "vmc": "VarianceMeanCount",
-            "hist": "Histogram", "graph": "Graph"}[k]
+            "hist": "Histogram", "graph": "Graph", "zip": "Zip", "splitfc": "Split",
+            "vec": "Vectorize", "sib": "SplitIntoBins"}[k]
 
 
 def acc_domain(er):
@@ -791,18 +785,22 @@ def run_acc(r, obs):
             obs.nontrivial = True
         where = "compute/request no. %d (op %d of %r, element %r)" % (
             sum(1 for o in ops[:oi + 1] if o[0] == "c"), oi, ops, er)
-        # later compute unchanged by the earlier mutation of results (twin was not molested)
+        later_diff = ""
         if mutated_before:
+            # later compute unchanged by the earlier mutation of results (twin not molested)
             obs.count("later_computes_compared")
             same = ([snap(o) for o in outs] == [snap(o) for o in touts]
                     and type(err) is type(terr))
-            if not obs.check(same, "mutating-result-changes-later-compute:" + lab,
-                             "%s: after the contexts yielded earlier were mutated in place, %s "
-                             "gives %r / %r; an element with the same history whose results "
-                             "were left alone gives %r / %r"
-                             % (lab, where, [snap(o) for o in outs], err,
-                                [snap(o) for o in touts], terr)):
-                return
+            if not same:
+                later_diff = ("after the contexts yielded earlier were mutated in place, %s "
+                              "gives %r / %r; an element with the same history whose results "
+                              "were left alone gives %r / %r"
+                              % (where, [snap(o) for o in outs], err,
+                                 [snap(o) for o in touts], terr))
+        if err is not None and later_diff:
+            obs.check(False, "mutating-result-changes-later-compute:" + lab,
+                      "%s: %s" % (lab, later_diff))
+            return
         if err is not None:
             if terr is None or type(terr) is not type(err):
                 obs.fail("compute-raises:%s:%s" % (lab, type(err).__name__),
@@ -824,6 +822,7 @@ def run_acc(r, obs):
             sh_earlier += [cids[i] for i in cids if i in eids]
             for cj in range(ci):
                 sh_earlier += identity.shared(c, ctxs[cj])
+        ex_filled, ex_earlier = repr(sh_filled[:1]), repr(sh_earlier[:1])
         # (2) destructive follow-up
         before = [snap(v) for v in filled]
         nm = 0
@@ -834,7 +833,7 @@ def run_acc(r, obs):
             mutated_before = True
         after = [snap(v) for v in filled]
         changed_earlier = [(s0, snap(c0)) for c0, s0 in earlier if snap(c0) != s0]
-        conseq = ""
+        conseq = ("; " + later_diff) if later_diff else ""
         if before != after:
             conseq += "; mutating the yielded context in place changed the filled values " \
                       "from %r to %r" % (before, after)
@@ -844,13 +843,16 @@ def run_acc(r, obs):
         # one violation per history: the identity oracle first, its consequences in the text
         if not obs.check(not sh_filled, "result-context-aliases-filled-context:" + lab,
                          "%s: the context yielded by %s shares %d mutable object(s) with the "
-                         "contexts of the filled values, e.g. %r%s"
-                         % (lab, where, len(sh_filled), sh_filled[:1], conseq)):
+                         "contexts of the filled values, e.g. %s%s"
+                         % (lab, where, len(sh_filled), ex_filled, conseq)):
             return
         if not obs.check(not sh_earlier, "result-context-aliases-earlier-result:" + lab,
                          "%s: the context yielded by %s shares %d mutable object(s) with a "
-                         "context yielded earlier, e.g. %r%s"
-                         % (lab, where, len(sh_earlier), sh_earlier[:1], conseq)):
+                         "context yielded earlier, e.g. %s%s"
+                         % (lab, where, len(sh_earlier), ex_earlier, conseq)):
+            return
+        if not obs.check(not later_diff, "mutating-result-changes-later-compute:" + lab,
+                         "%s: %s" % (lab, later_diff)):
             return
         if not obs.check(before == after, "mutating-result-changes-filled-value:" + lab,
                          "%s: %s%s" % (lab, where, conseq)):
